@@ -48,3 +48,8 @@ func zzCall(id int64, method string) *jsonrpc.Request {
 	return &jsonrpc.Request{ID: jsonrpc2.Int64ID(id), Method: method, Params: vJSON(&PingParams{})}
 }
 
+
+func zzIsSupported(v string) bool {
+	return v == protocolVersion20260728 || v == protocolVersion20251125 || v == protocolVersion20250618 || v == protocolVersion20250326 || v == protocolVersion20241105
+}
+
